@@ -521,7 +521,10 @@ def cli_plumbing(E, mod, inner, in_param, out_param, in_mode, out_mode, suffix, 
         if k == 'no1014blocking':
             E.prove(tag + '/1014-option-as-the-caller-gave-it', z3.BoolVal(isinstance(v, VBool)) if not isinstance(v, VBool) else v.t == no1014.t, 'P')
         else:
-            E.prove('%s/option-%s-as-the-caller-gave-it' % (tag, k), z3.BoolVal(v is want), 'P')
+            if isinstance(v, VSeq) and isinstance(want, VSeq):
+                E.prove_value_eq('%s/option-%s-as-the-caller-gave-it' % (tag, k), v, want, 'P')
+            else:
+                E.prove('%s/option-%s-as-the-caller-gave-it' % (tag, k), z3.BoolVal(v is want), 'P')
     if vbs_override:
         for k in ('in_format', 'out_format'):
             v = getopt(k)
